@@ -29,11 +29,11 @@ TEMPLATE = os.path.join(HERE, "x64")
 SPEC = os.path.join(VERIF, "spec", "x64.toml")
 REPO = os.environ.get("VERIF_REPO", "/repo")
 
-FULL_PAD = 140      # label harnesses: symbolic filler 0..=FULL_PAD bytes (design bound)
-QUICK_PAD = 140     # the filler is emitted by a loop-free binary decomposition, cheap enough for quick
-RL_PAD = 40         # RIP-relative label loads have no short/near switch
-UNWIND = 20
-UNWIND_LABEL = 20
+FULL_PAD = 140      # branch units: symbolic filler 0..=FULL_PAD bytes (design bound, covers the rel8/rel32 switch)
+QUICK_PAD = int(os.environ.get("C07_QUICK_PAD", "140"))
+RL_PAD = 24         # RIP-relative label loads have no short/near switch
+QUICK_RL_PAD = 6
+UNWIND = int(os.environ.get("C07_UNWIND", "8"))
 
 
 def asm_src():
@@ -170,7 +170,6 @@ class Gen:
         self.spec = spec
         self.tier = tier
         self.out = []
-        self.harnesses = []
         self.unspecified = []
         self.skipped_spec = []
         self.conds = [(v, spec.get("cond", {})[v]) for v in parsed["cond"] if v in spec.get("cond", {})]
@@ -310,22 +309,16 @@ class Gen:
                     L.append("%s.rel = %s as i64;" % (var, pn))
         return L
 
-    # -- one harness -------------------------------------------------------------------
-    def emit_harness(self, name, method, kind, sig, sp, ops, ctor=None, label_dir=None, pad=0):
-        """kind: legal | any | label"""
-        hname = "h_%s__%s" % (method, name)
+    # -- one unit --------------------------------------------------------------------------
+    def emit_unit(self, variant, method, kind, sig, sp, ops, ctor=None, label_dir=None, pad=0):
+        """kind: legal | any | label.  A unit draws the operands, calls the method on the given
+        assembler and returns the expectation."""
+        uname = "u_%s__%s" % (method, variant)
         assume_legal = kind == "legal"
         draws = []
-        B = []
-        B.append("pub fn b_%s__%s<S: Src>(s: &mut S) -> Option<Outcome> {" % (method, name))
-        B.append("    let mut legal = true;")
+        B = ["pub fn %s<S: Src>(s: &mut S, a: &mut AssemblerX64) -> Option<Exp> {" % uname,
+             "    let mut legal = true;"]
         body = []
-        avx = sp.get("avx")
-        if avx is None:
-            body += ["let avx_i = s.u8();", "if !s.assume(avx_i < 2) { return None; }", "let avx = avx_i == 1;"]
-            draws.append(("avx_i", "u8"))
-        else:
-            body.append("let avx = %s;" % ("true" if avx else "false"))
         args = []
         memexpr = "Mem::NONE"
         label_param = None
@@ -370,9 +363,7 @@ class Gen:
                 memexpr = "Mem { base: NOREG, index: NOREG, scale: 1, disp: 0, rip: true }"
         call = "a.%s(%s);" % (method, ", ".join(args))
         if label_param is None:
-            body.append("let mut a = AssemblerX64::new(avx);")
             body.append(call)
-            body.append("let code = a.finalize(1).code();")
             body.append("let at = 0usize;")
             body.append("let tail = 0usize;")
             body.append("let target: Option<i64> = None;")
@@ -380,27 +371,25 @@ class Gen:
             body.append("let n = s.u8();")
             draws.append(("n", "u8"))
             body.append("if !s.assume(n <= %d) { return None; }" % pad)
-            body.append("let mut a = AssemblerX64::new(avx);")
             body.append("a.nop();")
             short = sp.get("branch") == "short"
             if label_dir == "fwd":
                 body.append("let lbl = a.create_label();")
                 body.append(call)
-                body.append("pad(&mut a, n);")
+                body.append("pad(a, n, %d);" % pad)
                 body.append("a.bind_label(lbl);")
                 body.append("a.nop();")
-                body.append("let code = a.finalize(1).code();")
                 body.append("let at = 1usize;")
                 body.append("let tail = n as usize + 1;")
-                body.append("let target: Option<i64> = Some(code.len() as i64 - 1);")
+                # the label is bound in front of the last byte
+                body.append("let target: Option<i64> = Some(-1);")
                 if short:
                     body.append("legal = legal && n <= 127;")
             else:
                 body.append("let lbl = a.create_and_bind_label();")
-                body.append("pad(&mut a, n);")
+                body.append("pad(a, n, %d);" % pad)
                 body.append(call)
                 body.append("a.nop();")
-                body.append("let code = a.finalize(1).code();")
                 body.append("let at = 1usize + n as usize;")
                 body.append("let tail = 1usize;")
                 body.append("let target: Option<i64> = Some(1);")
@@ -417,52 +406,134 @@ class Gen:
             for o in a0["ops"]:
                 sh, pn = o.split(":")
                 aops.append((sh, pn))
-            sp2 = dict(sp)
-            altlines = self.expected("e2", sp2, aops, a0["size"], memexpr, False, imm_norm_size=a0["size"])
+            altlines = self.expected("e2", dict(sp), aops, a0["size"], memexpr, False, imm_norm_size=a0["size"])
             altlines.append("let alt: Option<Insn> = if %s >= %d && %s <= %d { Some(e2) } else { None };" % (
                 imm_param, a0["when_imm_min"], imm_param, a0["when_imm_max"]))
         body += altlines
-        body.append("Some(Outcome { code, at, tail, exp: e, alt, legal, target })")
+        body.append("Some(Exp { at, tail, exp: e, alt, legal, target })")
         B += ["    " + l for l in body]
-        B.append("}")
-        B.append("#[cfg(kani)]")
-        B.append("#[kani::proof]")
-        B.append("#[kani::unwind(%d)]" % (UNWIND_LABEL if label_param else UNWIND))
-        B.append("fn %s() {" % hname)
-        B.append("    let mut s = KaniSrc;")
-        B.append("    if let Some(o) = b_%s__%s(&mut s) {" % (method, name))
-        B.append("        verdict(&o);")
-        B.append("    }")
         B.append("}")
         B.append("")
         self.out += B
-        self.harnesses.append({"name": hname, "body": "b_%s__%s" % (method, name), "method": method, "kind": kind,
-                               "variant": name, "ctor": ctor, "label_dir": label_dir, "pad": pad if label_param else None,
-                               "draws": [{"name": n, "type": t} for n, t in draws]})
+        avx = sp.get("avx")
+        avx_class = "any" if avx is None else ("true" if avx else "false")
+        if label_param is not None:
+            cat = "branch" if "branch" in sp else "rl"
+        elif ctor:
+            cat = "mem"
+        else:
+            cat = "plain"
+        self.units.append({"name": uname, "method": method, "kind": kind, "variant": variant, "ctor": ctor,
+                           "label_dir": label_dir, "pad": pad if label_param else None, "avx": avx_class, "cat": cat,
+                           "draws": [{"name": n, "type": t} for n, t in draws]})
 
-    # -- everything --------------------------------------------------------------------
+    # -- groups ------------------------------------------------------------------------------
+    def make_groups(self):
+        limits = {"plain": int(os.environ.get("C07_GROUP_PLAIN", "12")), "mem": int(os.environ.get("C07_GROUP_MEM", "6")),
+                  "branch": int(os.environ.get("C07_GROUP_BRANCH", "2")), "rl": int(os.environ.get("C07_GROUP_RL", "6"))}
+        only = [x for x in os.environ.get("C07_ONLY_UNITS", "").split(",") if x]
+        if only:
+            limits = {k: 1 for k in limits}
+        buckets = {}
+        order = []
+        for u in self.units:
+            if only and u["name"] not in only:
+                continue
+            key = (u["cat"], u["kind"], u["ctor"] or "", u["label_dir"] or "", u["avx"])
+            if key not in buckets:
+                buckets[key] = []
+                order.append(key)
+            buckets[key].append(u)
+        for key in order:
+            us = buckets[key]
+            lim = limits[key[0]]
+            nchunks = (len(us) + lim - 1) // lim
+            per = (len(us) + nchunks - 1) // nchunks
+            for c in range(nchunks):
+                chunk = us[c * per:(c + 1) * per]
+                if not chunk:
+                    continue
+                gname = "_".join(x for x in (key[0], key[1], key[2], key[3], "avx" + key[4], str(c)) if x)
+                self.emit_group(gname, chunk, key)
+
+    def emit_group(self, gname, units, key):
+        cat, kind, ctor, label_dir, avx = key
+        k = len(units)
+        pad = max([u["pad"] or 0 for u in units])
+        unwind = (pad + 3) if cat in ("branch", "rl") else UNWIND
+        W = self.w
+        W("pub fn g_%s<S: Src>(s: &mut S) -> Option<(u8, Outcome)> {" % gname)
+        W("    let sel = s.u8();")
+        W("    if !s.assume(sel < %d) { return None; }" % k)
+        if avx == "any":
+            W("    let avx_i = s.u8();")
+            W("    if !s.assume(avx_i < 2) { return None; }")
+            W("    let avx = avx_i == 1;")
+        else:
+            W("    let avx = %s;" % avx)
+        W("    let mut a = AssemblerX64::new(avx);")
+        W("    let e = match sel {")
+        for n, u in enumerate(units[:-1]):
+            W("        %d => %s(s, &mut a)," % (n, u["name"]))
+        W("        _ => %s(s, &mut a)," % units[-1]["name"])
+        W("    };")
+        W("    let e = match e { Some(e) => e, None => return None };")
+        W("    let code = a.finalize(1).code();")
+        W("    Some((sel, Outcome { code, e }))")
+        W("}")
+        W("#[cfg(kani)]")
+        W("#[kani::proof]")
+        W("#[kani::unwind(%d)]" % unwind)
+        W("#[kani::stub(std::vec::Vec::new, crate::vecmodel::new)]")
+        W("#[kani::stub(std::vec::Vec::push, crate::vecmodel::push)]")
+        W("#[kani::stub(std::vec::Vec::extend_from_slice, crate::vecmodel::extend_from_slice)]")
+        W("#[kani::stub(<[u8]>::copy_from_slice, crate::vecmodel::copy_from_slice)]")
+        W("fn h_%s() {" % gname)
+        W("    let mut s = KaniSrc;")
+        W("    if let Some((sel, o)) = g_%s(&mut s) {" % gname)
+        W("        let ok = all_ok(&o);")
+        for n, u in enumerate(units):
+            W('        kani::cover!(sel == %d && ok, "C07:witness:%s");' % (n, u["name"]))
+            W('        assert!(sel != %d || ok, "C07:m:%s");' % (n, u["name"]))
+        W("    }")
+        W("}")
+        W("")
+        self.groups.append({"name": gname, "harness": "h_" + gname, "units": [u["name"] for u in units], "unwind": unwind,
+                            "avx": avx, "cat": cat, "kind": kind})
+
+    # -- everything --------------------------------------------------------------------------
     def run(self):
         spec_methods = self.spec.get("methods", {})
         infra = set(self.spec.get("infrastructure", {}).get("methods", []))
         thorough = self.tier == "thorough"
+        self.units = []
+        self.groups = []
         self.w("// GENERATED by /verif/engines/kani_asm/gen_x64.py -- do not edit")
         self.w("use crate::decoder::*;")
-        self.w("use crate::{Outcome, Src};")
+        self.w("use crate::{Exp, ListSrc, Outcome, Src};")
         self.w("#[cfg(kani)]")
-        self.w("use crate::{verdict, KaniSrc};")
+        self.w("use crate::{all_ok, KaniSrc};")
         self.w("use dora_asm::x64::*;")
         self.w("")
-        self.w("/// loop-free filler of n bytes (binary decomposition of n <= 255)")
-        self.w("fn pad(a: &mut AssemblerX64, n: u8) {")
-        self.w("    const F: u128 = 0x90909090_90909090_90909090_90909090u128;")
-        self.w("    if n & 128 != 0 { a.emit_u128(F); a.emit_u128(F); a.emit_u128(F); a.emit_u128(F); a.emit_u128(F); a.emit_u128(F); a.emit_u128(F); a.emit_u128(F); }")
-        self.w("    if n & 64 != 0 { a.emit_u128(F); a.emit_u128(F); a.emit_u128(F); a.emit_u128(F); }")
-        self.w("    if n & 32 != 0 { a.emit_u128(F); a.emit_u128(F); }")
-        self.w("    if n & 16 != 0 { a.emit_u128(F); }")
-        self.w("    if n & 8 != 0 { a.emit_u64(F as u64); }")
-        self.w("    if n & 4 != 0 { a.emit_u32(F as u32); }")
-        self.w("    if n & 2 != 0 { a.emit_u8(0x90); a.emit_u8(0x90); }")
-        self.w("    if n & 1 != 0 { a.emit_u8(0x90); }")
+        self.w("/// filler of n <= max bytes")
+        self.w("fn pad(a: &mut AssemblerX64, n: u8, max: u8) {")
+        self.w("    let mut k = 0u8;")
+        self.w("    while k < max {")
+        self.w("        if k < n { a.nop(); }")
+        self.w("        k += 1;")
+        self.w("    }")
+        self.w("}")
+        self.w("")
+        self.w("fn run_unit(s: &mut ListSrc, avx_class: u8, f: fn(&mut ListSrc, &mut AssemblerX64) -> Option<Exp>) -> Option<Outcome> {")
+        self.w("    let avx = match avx_class {")
+        self.w("        0 => false,")
+        self.w("        1 => true,")
+        self.w("        _ => { let v = s.u8(); if v >= 2 { return None; } v == 1 }")
+        self.w("    };")
+        self.w("    let mut a = AssemblerX64::new(avx);")
+        self.w("    let e = f(s, &mut a)?;")
+        self.w("    let code = a.finalize(1).code();")
+        self.w("    Some(Outcome { code, e })")
         self.w("}")
         self.w("")
         encoded = []
@@ -494,33 +565,36 @@ class Gen:
             encoded.append(name)
             if has_label:
                 is_branch = "branch" in sp
-                padq = QUICK_PAD if is_branch else min(QUICK_PAD, RL_PAD)
-                padt = FULL_PAD if is_branch else RL_PAD
-                pad = padt if thorough else padq
-                self.emit_harness("label_fwd", name, "label", sig, sp, ops, label_dir="fwd", pad=pad)
-                self.emit_harness("label_bwd", name, "label", sig, sp, ops, label_dir="bwd", pad=pad)
+                if thorough:
+                    pad = FULL_PAD if is_branch else RL_PAD
+                else:
+                    pad = QUICK_PAD if is_branch else QUICK_RL_PAD
+                self.emit_unit("label_fwd", name, "label", sig, sp, ops, label_dir="fwd", pad=pad)
+                self.emit_unit("label_bwd", name, "label", sig, sp, ops, label_dir="bwd", pad=pad)
             elif has_addr:
                 for c in ("offset", "array"):
-                    self.emit_harness("legal_" + c, name, "legal", sig, sp, ops, ctor=c)
+                    self.emit_unit("legal_" + c, name, "legal", sig, sp, ops, ctor=c)
                 if thorough:
                     for c in ("reg", "index", "rip"):
                         if c in self.ctors:
-                            self.emit_harness("legal_" + c, name, "legal", sig, sp, ops, ctor=c)
+                            self.emit_unit("legal_" + c, name, "legal", sig, sp, ops, ctor=c)
                     for c in ("array", "index"):
                         if c in self.ctors:
-                            self.emit_harness("any_" + c, name, "any", sig, sp, ops, ctor=c)
+                            self.emit_unit("any_" + c, name, "any", sig, sp, ops, ctor=c)
             else:
-                self.emit_harness("legal", name, "legal", sig, sp, ops)
+                self.emit_unit("legal", name, "legal", sig, sp, ops)
                 if thorough and has_imm:
-                    self.emit_harness("any", name, "any", sig, sp, ops)
+                    self.emit_unit("any", name, "any", sig, sp, ops)
         for name in spec_methods:
             if name not in self.p["methods"]:
                 self.skipped_spec.append(name)
+        self.make_groups()
         # native dispatch
-        self.w("pub fn run_native(name: &str, s: &mut crate::ListSrc) -> Option<Option<Outcome>> {")
+        self.w("pub fn run_native(name: &str, s: &mut ListSrc) -> Option<Option<Outcome>> {")
         self.w("    match name {")
-        for h in self.harnesses:
-            self.w('        "%s" => Some(%s(s)),' % (h["name"], h["body"]))
+        for u in self.units:
+            ac = {"false": 0, "true": 1, "any": 2}[u["avx"]]
+            self.w('        "%s" => Some(run_unit(s, %d, %s::<ListSrc>)),' % (u["name"], ac, u["name"]))
         self.w("        _ => None,")
         self.w("    }")
         self.w("}")
@@ -552,13 +626,14 @@ def generate(tier, out_dir=None):
         shutil.copy(lock, os.path.join(out_dir, "Cargo.lock"))
     _write_if_changed(os.path.join(out_dir, "src", "harnesses.rs"), "\n".join(g.out) + "\n")
     manifest = {
-        "tier": tier, "asm_src": src_dir, "crate": out_dir, "harnesses": g.harnesses, "functions_encoded": encoded,
+        "tier": tier, "asm_src": src_dir, "crate": out_dir, "groups": g.groups, "units": g.units, "functions_encoded": encoded,
         "unspecified": g.unspecified, "spec_entries_without_method": g.skipped_spec,
         "condition_variants": [v for v, _ in g.conds], "condition_variants_unspecified": g.cond_unspecified,
         "address_constructors": sorted(g.ctors), "address_constructors_unspecified": sorted(set(parsed["ctors"]) - set(g.ctors)),
-        "bounds": {"unwind": UNWIND, "unwind_label": UNWIND_LABEL,
+        "bounds": {"unwind": UNWIND, "unwind_label": "pad + 3",
                    "branch_pad_max": FULL_PAD if tier == "thorough" else QUICK_PAD,
-                   "rl_pad_max": RL_PAD if tier == "thorough" else min(QUICK_PAD, RL_PAD)},
+                   "rl_pad_max": RL_PAD if tier == "thorough" else QUICK_RL_PAD,
+                   "vec_model_capacity": 192},
     }
     with open(os.path.join(out_dir, "harnesses.json"), "w") as f:
         json.dump(manifest, f, indent=1)
@@ -575,7 +650,7 @@ def _write_if_changed(path, content):
 if __name__ == "__main__":
     tier = sys.argv[1] if len(sys.argv) > 1 else "quick"
     m = generate(tier, sys.argv[2] if len(sys.argv) > 2 else None)
-    print("%d harnesses, %d methods, %d unspecified -> %s" % (
-        len(m["harnesses"]), len(m["functions_encoded"]), len(m["unspecified"]), m["crate"]))
+    print("%d group harnesses, %d units, %d methods, %d unspecified -> %s" % (
+        len(m["groups"]), len(m["units"]), len(m["functions_encoded"]), len(m["unspecified"]), m["crate"]))
     for u in m["unspecified"]:
         print("  unspecified:", u)
